@@ -1,8 +1,7 @@
 /-
   C05 — torn-tail recovery yields exactly the fully written prefix.
 -/
-import BS.Proofs.Repair
-import BS.Proofs.Extract
+import BS.Proofs.LastMeta
 
 namespace BS.Props.C05
 open BS BS.Impl
@@ -20,6 +19,21 @@ for the repaired file. -/
 theorem repair_yields_written_prefix (p : Nat) (xs : List Entry) (hv : Valid p xs) (hc : TailClean p xs) (n : Nat) :
     repairData p ((Spec.encode p xs).take n) = Spec.encode p (xs.take (Spec.linesWithin p xs n)) :=
   repair_cut p xs hv hc n
+
+/-- **Opening after a crash recovers exactly the fully written prefix.**  The data file cut at
+ANY byte length `n` of its data region and — independently — the index file in ANY legitimate
+prior state (`IndexState`: absent; cut at any byte length, which covers intact, truncated,
+lagging by any number of entries, and one or more entries ahead of the data because the
+original history `xs` is longer than what survived; shorter than its own 4-byte header):
+`Data::open_existing` succeeds and re-establishes the data invariant for `xs.take k`, `k` the
+number of completely written entries.  The files on disk are then the canonical files of that
+prefix, so further appends continue canonically (C03, C15) and round-trip (C01). -/
+theorem open_recovers_written_prefix (p : Nat) (xs : List Entry) (hvx : Valid p xs) (hc : TailClean p xs)
+    (hsize : (Spec.encode p xs).length < 2^64) (hdr : Bytes) (n : Nat) (st : Store) (cb : Option Bool)
+    (hdata : st.data = some (hdr ++ (Spec.encode p xs).take n)) (hix : IndexState p xs st.index) :
+    ∃ st' d, dataOpenExisting st p hdr.length cb = (st', .ok d) ∧ d.p = p ∧
+      DataInv hdr ihdr st' d (xs.take (Spec.linesWithin p xs n)) :=
+  dataOpen_recovers p xs hvx hc hsize hdr n st cb hdata hix
 
 /-- `TailClean` is automatic for payload sizes of at least 4 (a section has no raw lines):
 there the statement above is unconditional. -/
